@@ -2600,6 +2600,11 @@ class SSHConnection(SSHPacketHandler, asyncio.Protocol):
         if self._auth:
             self._auth.cancel()
 
+        # The restrictions enforced after authentication are those of the
+        # credential which gets accepted: forget the authorized_keys and
+        # certificate options of credentials examined by earlier requests
+        cast(SSHServerConnection, self).reset_credential_options()
+
         self._auth = lookup_server_auth(cast(SSHServerConnection, self),
                                              self._username, method, packet)
 
@@ -6243,6 +6248,12 @@ class SSHServerConnection(SSHConnection):
             not self.get_key_option('no-touch-required', False))
 
         return key
+
+    def reset_credential_options(self) -> None:
+        """Forget the options of a previously examined key or certificate"""
+
+        self._key_options = {}
+        self._cert_options = None
 
     def public_key_auth_supported(self) -> bool:
         """Return whether or not public key authentication is supported"""
